@@ -769,8 +769,10 @@ def refusal_case(case):
     s0 = make_state(L, grid, "scalar", [0], case["vseed"])
     dt = kw.pop("dt", 0.01)
     label = f"refusal|{solver}|{sorted(case['kw'].items())}|{backend}|{case['cls']}"
-    mk = {"sde": lambda **k: L["DecaySDE"](RATE, **k), "mul": lambda **k: L["MulSDE"](RATE, **k)}[case["cls"]]
-    eq = mk(noise=0.3, rng=np.random.default_rng(0))
+    if case["cls"] == "sde":
+        eq = L["DecaySDE"](RATE, noise=0.3, rng=np.random.default_rng(0))
+    else:
+        eq = L["MulSDE"](RATE, g2=0.3, rng=np.random.default_rng(0))
     n = 1
     try:
         res = eq.solve(s0, t_range=0.03, dt=dt, solver=solver, backend=backend, tracker=None, **kw)
